@@ -5,7 +5,7 @@
    statement of the documented layouts and is tied to the code by differential execution on all 45 formats).
    Every theorem below quantifies over the whole input domain of the conversion it is about. *)
 From Coq Require Import ZArith List Bool Lia.
-From DDSV Require Import model.Float model.Convert spec.SpecNum proofs.ConvertProofsA proofs.ConvertProofsB proofs.ConvertProofsC proofs.ConvertProofsD proofs.YuvProofs model.Encode proofs.FloatMono proofs.FloatTotal proofs.QuantProofs proofs.QuantProofs16.
+From DDSV Require Import model.Float model.Convert spec.SpecNum proofs.ConvertProofsA proofs.ConvertProofsB proofs.ConvertProofsC proofs.ConvertProofsD proofs.YuvProofs model.Encode proofs.FloatMono proofs.FloatTotal proofs.QuantProofs proofs.QuantProofs16 model.Crop model.RectPath model.BiPlanarPath proofs.RectPathProofs proofs.BiPlanarProofs.
 Import ListNotations.
 Local Open Scope Z_scope.
 
@@ -84,6 +84,26 @@ Proof. exact fp16_n16_witness. Qed.
 Example C04_ex_unorm : In (n5_n8, 5, 255) unorm_cases /\ n5_n8 31 = 255 /\ n5_n8 16 = 132.
 Proof. split; [cbn; tauto|split; reflexivity]. Qed.
 
+(* ---- chroma pairing ("sub-sampled and bi-planar formats pair each pixel with the chroma sample of its own 2x1 / 2x2
+   cell").  The code paths are modelled line by line in model/RectPath.v and model/BiPlanarPath.v (see C05, tags 51 / 53).
+   Bi-planar: for every plane element size, sub-sampling, width and height (odd ones included) the full decode through
+   the helper with its offset / full / rest parts yields bp_spec_image: pixel (x, y) is gpx (plane-1 element y * W + x)
+   (plane-2 element (y / sy) * ceil(W / sx) + x / sx) (y mod sy). *)
+Theorem C04_bi_planar_pairing : forall (A B : Type) (e1 e2 sx sy : nat) (gpx : list Z -> list Z -> nat -> A) (cv : A -> B),
+  (1 <= e1)%nat -> (1 <= e2)%nat -> (1 <= sx)%nat -> (1 <= sy)%nat ->
+  forall (W H : nat) (data : list Z), (1 <= W)%nat -> (length data = W * e1 * H + cdiv W sx * e2 * cdiv H sy)%nat ->
+  forall (conv : bool) (bufpx : nat), (1 <= H)%nat -> (conv = true -> sx <= bufpx)%nat ->
+  bp_full_image A B e1 e2 sx sy cv (bp_row A e1 e2 sx gpx) conv bufpx W H data = Some (bp_spec_image A B e1 e2 sx sy gpx cv W H data).
+Proof. exact bi_planar_pairing. Qed.
+(* 2x1 macro pixels (YUY2, UYVY, Y210, Y216, R8G8_B8G8, G8R8_G8B8): through process_2x1_blocks_helper with its odd-width
+   tail, pixel (x, y) of the full decode is entry x mod 2 of the macro pixel x / 2 of row y *)
+Theorem C04_2x1_pairing : forall (A B : Type) (bpb : nat) (dec : list Z -> list A) (cv : A -> B), (1 <= bpb)%nat -> (forall b, length (dec b) = 2 * 1)%nat ->
+  forall (conv : bool) (bbpp W H : nat) (data : list Z) x y d, (conv = true -> 1 <= bbpp /\ 2 * 1 * bbpp <= 3072)%nat ->
+  (1 <= W)%nat -> (1 <= H)%nat -> (length data = cdiv W 2 * bpb * cdiv H 1)%nat -> (x < W)%nat -> (y < H)%nat ->
+  exists img, full_image A B 2 1 bpb cv (p2x1_row A dec) conv 3072 bbpp W H data = Some img /\
+    nth x (nth y img []) (cv d) = cv (nth (x mod 2) (dec (slice ((y * cdiv W 2 + x / 2) * bpb) bpb data)) d).
+Proof. exact sub_sampled_2x1_pairing. Qed.
+
 Definition C04_all := (C04_unorm_nearest, C04_snorm8_nearest, C04_snorm16_nearest, C04_xr_nearest, C04_unorm_f32, C04_n16_f32, C04_s16_f32,
-  C04_small_floats, C04_rgb9995, C04_fp16, C04_fp16_n16_refuted, C04_yuv8_grey_axis, C04_yuv_wide_white_refuted, C04_f32_to_u8, C04_f32_to_u16, C04_f32_to_u8_outside, C04_f32_to_u16_outside).
+  C04_small_floats, C04_rgb9995, C04_fp16, C04_fp16_n16_refuted, C04_yuv8_grey_axis, C04_yuv_wide_white_refuted, C04_f32_to_u8, C04_f32_to_u16, C04_f32_to_u8_outside, C04_f32_to_u16_outside, C04_bi_planar_pairing, C04_2x1_pairing).
 Redirect "props/C04.assumptions" Print Assumptions C04_all.
